@@ -3,6 +3,9 @@
 #include <cstring>
 #include <cstdio>
 #include <new>
+#if defined(AMGSIM_TRACE)
+#include "trace.hpp"
+#endif
 
 namespace sim {
 const char* heap_fill_name(int f) {
@@ -105,6 +108,9 @@ void sim_free(void *p) {
     Header *h = ((Header*)p) - 1;
     if (h->magic != MAGIC_LIVE) { ++stats.bad_free; return; }   // double free or foreign pointer: recorded, not executed
     --stats.live_blocks; stats.live_bytes -= h->size;
+#if defined(AMGSIM_TRACE)
+    simtrace::purge(p, h->size);         // free -> reuse of the block is a happens-before edge
+#endif
     h->magic = MAGIC_FREE;
     if (cfg.recycle && cached_bytes + h->size < CACHE_LIMIT && (((uintptr_t)p) & 15) == 0) {
         Bucket *b = bucket_for(h->size, true);
